@@ -518,4 +518,189 @@ theorem keystore_depends_on_calls (c1 c2 : Crypto) (text : Str)
   simp only [deriveKey]
   rw [show c1.pbkdf2 (s.data1 ++ SALT) s.data2 ROUNDS = c2.pbkdf2 (s.data1 ++ SALT) s.data2 ROUNDS from this]
 
+/-! ### termination of the attribute reader (C11) -/
+
+theorem cstr_length {b s r : Bytes} (h : cstr b = some (s, r)) : r.length < b.length := by
+  induction b generalizing s r with
+  | nil => simp [cstr] at h
+  | cons x t ih =>
+    simp only [cstr] at h
+    split at h
+    · simp only [Option.some.injEq, Prod.mk.injEq] at h
+      obtain ⟨_, rfl⟩ := h; simp
+    · split at h
+      · cases h
+      · rename_i s' r' hc
+        simp only [Option.some.injEq, Prod.mk.injEq] at h
+        obtain ⟨_, rfl⟩ := h
+        have := ih hc
+        simp only [List.length_cons]; omega
+
+/-- a decoded value never leaves more input than it was given -/
+theorem readVal_length {t : Nat} {b : Bytes} {v : Val} {rest : Bytes} (h : readVal t b = some (.ok (v, rest))) :
+    rest.length ≤ b.length := by
+  unfold readVal at h
+  split at h
+  · cases h
+  · rename_i x kind w signed hrow
+    split at h
+    · split at h
+      · cases h
+      · rename_i s r hc
+        split at h
+        · simp only [Option.some.injEq, Except.ok.injEq, Prod.mk.injEq] at h
+          obtain ⟨_, rfl⟩ := h
+          exact Nat.le_of_lt (cstr_length hc)
+        · cases h
+    · split at h
+      · split at h
+        · cases h
+        · simp only at h
+          split at h
+          · cases h
+          · simp only [Option.some.injEq, Except.ok.injEq, Prod.mk.injEq] at h
+            obtain ⟨_, rfl⟩ := h
+            simp only [List.length_drop]; omega
+      · split at h
+        · split at h
+          · cases h
+          · simp only [Option.some.injEq, Except.ok.injEq, Prod.mk.injEq] at h
+            obtain ⟨_, rfl⟩ := h
+            simp only [List.length_drop]; omega
+        · split at h
+          · split at h
+            · cases h
+            · simp only [Option.some.injEq, Except.ok.injEq, Prod.mk.injEq] at h
+              obtain ⟨_, rfl⟩ := h
+              simp only [List.length_drop]; omega
+          · cases h
+
+/-- **progress**: an iteration that yields an attribute consumes at least the type byte, the flag byte and the name's NUL -/
+theorem readOne_progress {b : Bytes} {a : Attr} {rest : Bytes} (h : readOne b = .attr a rest) : rest.length + 3 ≤ b.length := by
+  unfold readOne at h
+  split at h
+  · cases h
+  · rename_i t b1
+    split at h
+    · cases h
+    · split at h
+      · cases h
+      · rename_i flag b2
+        split at h
+        · cases h
+        · rename_i name b4 hc
+          split at h
+          · cases h
+          · split at h
+            · cases h
+            · cases h
+            · rename_i v rest' hv
+              simp only [Step.attr.injEq] at h
+              obtain ⟨_, rfl⟩ := h
+              have h1 := cstr_length hc
+              have h2 := readVal_length hv
+              simp only [List.length_drop] at h1
+              simp only [List.length_cons]
+              omega
+
+/-- the loop of `_read_envelope_attributes` never runs out of fuel when given more fuel than bytes -/
+theorem readList_terminates : ∀ (fuel : Nat) (b : Bytes), b.length < fuel → readList fuel b ≠ .error .nonTermination := by
+  intro fuel
+  induction fuel with
+  | zero => intro b h; omega
+  | succ fuel ih =>
+    intro b hb
+    simp only [readList]
+    split
+    · intro h; cases h
+    · rename_i e he
+      intro h
+      simp only [Except.error.injEq] at h
+      subst h
+      -- a single iteration never reports `nonTermination`
+      unfold readOne at he
+      repeat' split at he
+      all_goals (first | (cases he; done) | skip)
+      all_goals
+        rename_i hv
+        simp only [Step.err.injEq] at he
+        subst he
+        unfold readVal at hv
+        repeat' split at hv
+        all_goals (first | (cases hv; done) | skip)
+        all_goals (simp only at hv; split at hv <;> cases hv)
+    · rename_i a rest hstep
+      have hp := readOne_progress hstep
+      have := ih rest (by omega)
+      split
+      · intro h; cases h
+      · rename_i e he
+        intro h
+        simp only [Except.error.injEq] at h
+        subst h
+        exact this he
+
+theorem readAttrs_terminates (b : Bytes) : readAttrs b ≠ .error .nonTermination := by
+  unfold readAttrs
+  have := readList_terminates (b.length + 1) b (by omega)
+  split
+  · intro h; cases h
+  · rename_i e he
+    intro h
+    simp only [Except.error.injEq] at h
+    subst h
+    exact this he
+
+/-- the fuel of the UTF-8 validator is never the reason for a `false` -/
+theorem utf8ValidF_fuel : ∀ (f1 f2 : Nat) (b : Bytes), b.length < f1 → b.length < f2 → utf8ValidF f1 b = utf8ValidF f2 b := by
+  intro f1
+  induction f1 with
+  | zero => intro f2 b h; omega
+  | succ f1 ih =>
+    intro f2 b h1 h2
+    obtain ⟨f2, rfl⟩ : ∃ k, f2 = k + 1 := ⟨f2 - 1, by omega⟩
+    cases b with
+    | nil => simp [utf8ValidF]
+    | cons b0 r =>
+      simp only [List.length_cons] at h1 h2
+      simp only [utf8ValidF]
+      split
+      · exact ih f2 r (by omega) (by omega)
+      split
+      · cases r with
+        | nil => rfl
+        | cons b1 r => simp only [List.length_cons] at h1 h2; simp only []; rw [ih f2 r (by omega) (by omega)]
+      split
+      · match r with
+        | [] => rfl
+        | [_] => rfl
+        | b1 :: b2 :: r => simp only [List.length_cons] at h1 h2; simp only []; rw [ih f2 r (by omega) (by omega)]
+      split
+      · match r with
+        | [] => rfl
+        | [_] => rfl
+        | [_, _] => rfl
+        | b1 :: b2 :: b3 :: r => simp only [List.length_cons] at h1 h2; simp only []; rw [ih f2 r (by omega) (by omega)]
+      · rfl
+
+/-- `Envelope.__init__` on any file contents returns or raises -/
+theorem openEnv_terminates (file : Bytes) : openEnv file ≠ .error .nonTermination := by
+  unfold openEnv
+  simp only []
+  split; · intro h; cases h
+  split; · intro h; cases h
+  split; · intro h; cases h
+  split
+  · rename_i e he
+    intro h
+    simp only [Except.error.injEq] at h
+    subst h
+    exact readAttrs_terminates _ he
+  · split; · intro h; cases h
+    split
+    · split; · intro h; cases h
+      split; · intro h; cases h
+      split <;> (intro h; cases h)
+    · intro h; cases h
+
 end Hv.Envelope
